@@ -612,8 +612,8 @@ class modict(odict):
                 for k, v in a.iterallitems():
                     self.append(k, v)
             elif hasattr(a, 'get'): #positional arg is dictionary
-                for k, v in a.iteritems():
-                    self.append(k, v)
+                for k in a:
+                    self.append(k, a[k])
             else: #positional arg is sequence of duples (k,v)
                 for k, v in a:
                     self.append(k, v)
